@@ -33,6 +33,7 @@ const (
 	IdMultiNamed        // multi-return + Name: (S, "k1") and (A, nil)
 	IdMultiGroup        // multi-return + Group: members of (S, "g1") and (A, "g1")
 	IdResObjGroup2      // result object: two members of (S, "g1") and (A, nil)  [registry harness only]
+	IdIface             // constructor whose declared result type is the interface I0: (I0, nil)
 	NumIdForms
 )
 
@@ -95,6 +96,8 @@ func (w *World) Ctor(r int) (any, []godi.AddOption) {
 		return TabM[r][g.Variant], append(opts, godi.Name("k1"))
 	case IdMultiGroup:
 		return TabM[r][g.Variant], append(opts, godi.Group("g1"))
+	case IdIface:
+		return TabCI[r][g.Variant], nil
 	case IdVoid:
 		return TabV[r][g.Variant], nil
 	case IdVoidErr:
@@ -166,7 +169,7 @@ func (w *World) Identities(r int) []Ident {
 		return []Ident{{Type: r, Key: "k1"}}
 	case IdGroup:
 		return []Ident{{Type: r, Group: "g1"}}
-	case IdAs:
+	case IdAs, IdIface:
 		return []Ident{{Type: TI0}}
 	case IdAsNamed:
 		return []Ident{{Type: TI0, Key: "k1"}}
